@@ -42,10 +42,17 @@ type Prog struct {
 	cfgs      map[*Fn]*cfgEntry
 	callees   map[*Fn][]*Fn
 	pure      map[*Fn]int // 0 unknown, 1 computing, 2 pure, 3 impure
+	splices   map[*Fn]*spliced
+	owners    map[token.Pos]*Fn
+	hbinds    map[*Fn]map[*types.Var][]Bind
+	helperCalled map[*Fn]bool
+	writes    map[*Fn]*WriteSet
 }
 
 // Fn is one function body: a declared function/method, or a function literal.
 type Fn struct {
+	P      *Prog
+	DeclName string // the declared name when Name is a registry alias (see aliasRegistryFns)
 	Name   string // "(*Runtime).executeList", "lexText", "init/\"exec\"", "var:newMap$1", "(*Runtime).executeTry$1"
 	Pkg    *packages.Package
 	Decl   *ast.FuncDecl // nil for literals
@@ -216,10 +223,12 @@ func (p *Prog) indexFns() {
 			}
 		}
 	}
+	p.aliasRegistryFns()
 	sort.Slice(p.Fns, func(i, j int) bool { return p.Fns[i].Name < p.Fns[j].Name })
 }
 
 func (p *Prog) addFn(fn *Fn) {
+	fn.P = p
 	p.Fns = append(p.Fns, fn)
 	p.FnByName[fn.Name] = fn
 	if fn.Body != nil {
@@ -332,8 +341,42 @@ func InsideOwn(f *Fn, n ast.Node) bool {
 	return true
 }
 
-// InspectOwn walks f's body without descending into nested function literals.
+// InspectOwn walks f's body without descending into nested function literals.  Calls to *new
+// helpers* — declared functions of the same package that did not exist when the rules were written
+// (see known.go) — are transparent: the helper's body is walked as if it stood at the call, once per
+// walk, so that a rule looking for a construct "in f" still finds it after an extract-function
+// refactoring.  On the tree the rules were written for there are no such helpers.
 func InspectOwn(f *Fn, visit func(ast.Node) bool) {
+	if f.Body == nil {
+		return
+	}
+	seen := map[*Fn]bool{f: true}
+	var walk func(body ast.Node)
+	walk = func(body ast.Node) {
+		ast.Inspect(body, func(n ast.Node) bool {
+			if _, ok := n.(*ast.FuncLit); ok {
+				return false
+			}
+			if n == nil {
+				return true
+			}
+			if !visit(n) {
+				return false
+			}
+			if call, ok := n.(*ast.CallExpr); ok && f.P != nil {
+				if h := f.P.NewHelperCallee(f, call); h != nil && !seen[h] {
+					seen[h] = true
+					defer walk(h.Body) // after the call's own operands
+				}
+			}
+			return true
+		})
+	}
+	walk(f.Body)
+}
+
+// InspectBody is InspectOwn without following helpers.
+func InspectBody(f *Fn, visit func(ast.Node) bool) {
 	if f.Body == nil {
 		return
 	}
